@@ -22,7 +22,7 @@ RULE = ("random histories (all change kinds, nested sets, unicode contents) + an
         "partially written); distinct = (tick label, outcome class old/new/empty per store)")
 ASSUMPTIONS = ["crash = process death; bytes reach the file in write order (no torn or reordered writes below "
                "the write() granularity)", "config files owned by the user are not part of the save"]
-BUDGET = {"quick": (40, 70), "thorough": (4000, 480)}
+BUDGET = {"quick": (40, 240), "thorough": (135, 900)}
 EXHAUSTIVE = {}
 CASE_TIMEOUT = 600
 REQUIRE = {"crash_points": 2000, "crashes_inside_pickle": 200, "reopen_after_crash": 2000}
